@@ -90,6 +90,11 @@ def plan(tier, seed):
         s += [mask_pattern(1, m, rng) for m in masks]          # ALL server patterns over 8 slots, h = 1
         s += [mask_pattern(2, m, rng) for m in rng.sample(masks, 24)]
     res = [dict(id=i + 1, pattern=p, ch=ch, sh=sh, sched=sched, end=end) for i, (p, ch, sh, sched, end) in enumerate(s)]
+    # a connection timeout shorter than the heartbeat interval (or with heartbeats off) is a matter of the opening
+    # handshake only: it changes nothing in the life of the connection
+    for x in res:
+        if x["pattern"].startswith("off-") or x["id"] % 3 == 0:
+            x["ct"] = 700
     # (g) a slow server: Connection.Open is answered 1.5 h after Tune - the timers run from TuneOk on, so a
     #     heartbeat is due during the handshake already and the rules hold unchanged afterwards
     hs = (1,) if tier == "quick" else (1, 2)
@@ -108,7 +113,7 @@ def run_sessions(sessions, tdir, par):
         t = time.time()
         _, out, _ = vlib.run_vh(["run", "--out", tdir, "--id", s["id"], "--pattern", s["pattern"], "--ch", s["ch"],
                                  "--sh", s["sh"], "--sched", json.dumps(s["sched"]), "--end", s["end"],
-                                 "--open-delay", s.get("open_delay", 0)],
+                                 "--open-delay", s.get("open_delay", 0), "--ct", s.get("ct", 0)],
                                 timeout=s["end"] / 1000.0 + 90, bin=BIN)
         d = json.loads(out.strip().splitlines()[-1])
         d["proc_wall_s"] = round(time.time() - t, 2)
